@@ -332,6 +332,10 @@ Checkable::ProcessingResult Checkable::ProcessCheckResult(const CheckResult::Ptr
 	if (is_volatile && IsStateOK(old_state) && IsStateOK(new_state))
 		send_notification = false; /* Don't send notifications for volatile OK -> OK changes. */
 
+	/* What this result made of the object, for everything below that runs without the object lock: another
+	 * result may be processed meanwhile. */
+	const StateType new_stateType = GetStateType();
+
 	olock.Unlock();
 
 	if (remove_acknowledgement_comments)
@@ -339,8 +343,8 @@ Checkable::ProcessingResult Checkable::ProcessCheckResult(const CheckResult::Ptr
 
 	Dictionary::Ptr vars_after = new Dictionary({
 		{ "state", new_state },
-		{ "state_type", GetStateType() },
-		{ "attempt", GetCheckAttempt() },
+		{ "state_type", new_stateType },
+		{ "attempt", attempt },
 		{ "reachable", reachable }
 	});
 
@@ -455,13 +459,13 @@ Checkable::ProcessingResult Checkable::ProcessCheckResult(const CheckResult::Ptr
 			<< "State Change: Checkable '" << GetName() << "' hard state change from " << old_state_str << " to " << new_state_str << " detected." << (is_volatile ? " Checkable is volatile." : "");
 	}
 	/* Whether a state change happened or the state type is SOFT (must be logged too). */
-	else if (stateChange || GetStateType() == StateTypeSoft) {
+	else if (stateChange || new_stateType == StateTypeSoft) {
 		OnStateChange(this, cr, StateTypeSoft, origin);
 		Log(LogNotice, "Checkable")
 			<< "State Change: Checkable '" << GetName() << "' soft state change from " << old_state_str << " to " << new_state_str << " detected.";
 	}
 
-	if (GetStateType() == StateTypeSoft || hardChange || recovery ||
+	if (new_stateType == StateTypeSoft || hardChange || recovery ||
 		(is_volatile && !(IsStateOK(old_state) && IsStateOK(new_state))))
 		ExecuteEventHandler();
 
